@@ -3,8 +3,17 @@
   Part 1 (proved here, on data regenerated from the sources on every run): the order, count and
   ABI-class signatures of the table in c_abi.rs are those of the struct declared in c_hook.h, and
   the initialiser of `fn_table()` fills the fields in declaration order.
+  Part 2 (proved on the model of the wrappers, `CAbi.lean`, whose agreement with the real table is
+  checked by the three-way correspondence): the buffer discipline on accepted packets — the name of
+  any record fits a 256-byte buffer with its terminating NUL (so the wrapper's length assertion never
+  fires), an address copy-out is exactly 4 or 16 bytes, and the raw-packet copy-out never writes more
+  than the stated capacity.
+  Memory safety of the `unsafe` blocks themselves is observed (canaries, the C driver), not proved.
 -/
 import DnsModel.Generated.FnTable
+import DnsModel.Theorems.C03
+import DnsModel.Lemmas.CaseFold
+import DnsModel.CAbi
 namespace Dns.C15
 open Dns.FnTable
 
@@ -22,5 +31,72 @@ theorem layout :
 theorem classified :
     (rustTable ++ headerTable).all (fun e => (e.ret :: e.args).all (fun c =>
       c ∈ ["ptr", "u8", "u16", "u32", "u64", "usize", "int", "bool", "void", "fnptr"])) = true := by decide
+
+open Dns in
+/-- the text of a name is no longer than its wire form (labels with permitted characters need no escape) -/
+theorem joinText_length (ls : List (List UInt8)) (hg : ∀ l ∈ ls, goodChars l = true) (res : Bytes) :
+    (joinText res ls).length ≤ res.length + labSum ls := by
+  induction ls generalizing res with
+  | nil => simp [joinText, labSum]
+  | cons l ls ih =>
+    have hl : escapeLabel l = l := escapeLabel_good (hg l (by simp))
+    have := ih (fun x hx => hg x (by simp [hx])) ((if res.isEmpty then res else res ++ [46]) ++ escapeLabel l)
+    simp only [joinText, List.foldl_cons] at this ⊢
+    rw [labSum_cons]
+    rw [hl] at this ⊢
+    have h2 : ((if res.isEmpty = true then res else res ++ [46]) ++ l).length ≤ res.length + (l.length + 1) := by
+      split <;> simp <;> omega
+    omega
+
+open Dns in
+/-- **names fit the caller's buffer**: on a record of an accepted packet the name accessor returns at
+most 254 bytes, so with its NUL it fits the 256-byte buffer of `name()` / `question()` and the
+wrapper's assertion cannot fire -/
+theorem name_fits {p : Bytes} {sec : Section} {r : RecPos} {ob oa : Bool} (hr : RRAtPos p sec r ob oa)
+    (c : Cursor) (hc : posOf c = some r) :
+    ∃ n, c.name p = .ok n ∧ n.length + 1 ≤ 256 ∧ n.length ≤ DNS_MAX_HOSTNAME_LEN := by
+  obtain ⟨ls, hv, _, hname, _⟩ := C03.accessors hr c hc
+  refine ⟨_, hname, ?_, ?_⟩
+  all_goals
+    rw [lowerBytes_length]
+    have := joinText_length ls hv.2.2.2 []
+    have hw := hv.2.2.1
+    rw [wireLen_eq] at hw
+    simp only [List.length_nil, Nat.zero_add] at this
+    have hmax : DNS_MAX_HOSTNAME_LEN = 255 := rfl
+    omega
+
+open Dns in
+/-- **an address copy-out is exactly 4 or 16 bytes** (A / AAAA records of an accepted packet) -/
+theorem ip_len {p : Bytes} {sec : Section} {r : RecPos} {ob oa : Bool} (hr : RRAtPos p sec r ob oa)
+    (c : Cursor) (hc : posOf c = some r) (b : Bytes) (h : c.rrIp p = .ok b) : b.length = 4 ∨ b.length = 16 := by
+  rw [C03.ip_accessor hr c hc] at h
+  obtain ⟨_, h10, hnext, hfit, hbody⟩ := hr
+  split at h
+  · rename_i ht
+    simp only [Res.ok.injEq] at h
+    subst h
+    have hlen : ((p.drop (r.ne + 10)).take (get16 p (r.ne + 8))).length = get16 p (r.ne + 8) := by
+      simp only [List.length_take, List.length_drop]; omega
+    rw [hlen]
+    have h41 : get16 p r.ne ≠ 41 := by rcases ht with ht | ht <;> omega
+    simp only [h41, if_false] at hbody
+    unfold RDataOK at hbody
+    rcases ht with ht | ht
+    · simp [ht] at hbody; exact Or.inl hbody.1
+    · simp [ht] at hbody; exact Or.inr hbody.1
+  · cases h
+
+open Dns in
+/-- **the raw-packet copy-out never exceeds the stated capacity** -/
+theorem raw_packet_fits (pp pp' : PP) (cap : Nat) (out : String) (h : cStep pp (.rawPacket cap) = some (pp', out)) :
+    pp' = pp ∧ (out = "ret=-1" ∨ pp.packet.length ≤ cap) := by
+  simp only [cStep] at h
+  split at h
+  · simp at h; exact ⟨h.1.symm, Or.inl h.2.symm⟩
+  · rename_i hle
+    split at h
+    · cases h
+    · simp at h; exact ⟨h.1.symm, Or.inr (by omega)⟩
 
 end Dns.C15
